@@ -13,9 +13,10 @@ import (
 )
 
 type varInfo struct {
-	name string
-	typ  Type
-	coq  string
+	name  string
+	typ   Type
+	coq   string
+	byRef bool // parameter of type *[n]T: usable only as the base of index / slice / len and as an assignment target
 }
 
 type scopes struct{ stack []map[string]*varInfo }
@@ -294,6 +295,8 @@ func (tr *translator) stmt(s ast.Stmt, c ctx, rest kont) (string, error) {
 		return "", tr.errf(s, "unsupported branch statement %s", x.Tok)
 	case *ast.EmptyStmt:
 		return rest()
+	case *ast.ExprStmt:
+		return tr.exprStmt(x, c, rest)
 	}
 	return "", tr.errf(s, "unsupported statement %T", s)
 }
@@ -301,10 +304,13 @@ func (tr *translator) stmt(s ast.Stmt, c ctx, rest kont) (string, error) {
 func (tr *translator) returnStmt(x *ast.ReturnStmt, c ctx) (string, error) {
 	fn := tr.cur
 	if len(x.Results) == 0 {
+		if len(fn.results) == 0 && len(fn.refOut) > 0 {
+			return tr.ret(c, tuplePat(fn.refOut)), nil
+		}
 		return "", tr.errf(x, "return without operands")
 	}
 	// return f(...) where f returns all the results
-	if len(x.Results) == 1 {
+	if len(x.Results) == 1 && len(fn.refOut) == 0 {
 		if call, ok := stripParens(x.Results[0]).(*ast.CallExpr); ok {
 			if v, _, err := tr.constEval(fn.file, fn.sc, call); err == nil && v == nil {
 				r, partial, err := tr.call(call)
@@ -340,6 +346,9 @@ func (tr *translator) returnStmt(x *ast.ReturnStmt, c ctx) (string, error) {
 		}
 		parts = append(parts, v.s)
 		safe = append(safe, v.safe...)
+	}
+	for _, r := range fn.refOut {
+		parts = append(parts, r.coq)
 	}
 	val := parts[0]
 	if len(parts) > 1 {
@@ -1025,4 +1034,296 @@ func (tr *translator) rangeStmt(x *ast.RangeStmt, c ctx, rest kont) (string, err
 		}
 		return nil
 	})
+}
+
+// arrayVar: e is x or &x or x[:] ... for a local array variable x (or a pointer-to-array parameter)
+func (tr *translator) arrayVarOf(e ast.Expr) *varInfo {
+	id, ok := stripParens(e).(*ast.Ident)
+	if !ok {
+		return nil
+	}
+	vi := tr.cur.sc.lookup(id.Name)
+	if vi == nil {
+		return nil
+	}
+	if _, isArr := vi.typ.(TArray); !isArr {
+		return nil
+	}
+	return vi
+}
+
+// refArg: the argument for a pointer-to-array parameter must be &x (x a local array) or p (p itself a
+// pointer-to-array parameter)
+func (tr *translator) refArg(e ast.Expr) (*varInfo, error) {
+	e = stripParens(e)
+	if u, ok := e.(*ast.UnaryExpr); ok && u.Op == token.AND {
+		if vi := tr.arrayVarOf(u.X); vi != nil && !vi.byRef {
+			return vi, nil
+		}
+	} else if vi := tr.arrayVarOf(e); vi != nil && vi.byRef {
+		return vi, nil
+	}
+	return nil, tr.errf(e, "the argument for a pointer-to-array parameter must be &x with x a local array variable")
+}
+
+// sliceTarget: x[lo:] with x a local array variable, the destination of copy / PutUintN
+func (tr *translator) sliceTarget(e ast.Expr) (*varInfo, ex, error) {
+	se, ok := stripParens(e).(*ast.SliceExpr)
+	if !ok || se.High != nil || se.Slice3 {
+		return nil, ex{}, tr.errf(e, "the destination must be x[lo:] with x a local array variable")
+	}
+	vi := tr.arrayVarOf(se.X)
+	if vi == nil {
+		return nil, ex{}, tr.errf(e, "the destination must be a slice of a local ARRAY variable (writes through slices alias)")
+	}
+	lo := ex{s: "0", t: predeclared["int"]}
+	if se.Low != nil {
+		var err error
+		if lo, err = tr.expr(se.Low); err != nil {
+			return nil, ex{}, err
+		}
+		if lo, err = tr.defaultType(se.Low, lo); err != nil {
+			return nil, ex{}, err
+		}
+		if _, isInt := lo.t.(TInt); !isInt {
+			return nil, ex{}, tr.errf(se.Low, "slice index of type %s", lo.t)
+		}
+	}
+	return vi, lo, nil
+}
+
+// exprStmt: the three statement-level calls with an effect on a local array:
+//
+//	copy(x[lo:], src)                         x := go_copy_at x lo src
+//	binary.BigEndian.PutUint64(x[lo:], v)     x := be_put_uint64 x lo v
+//	f(&x, args)  f a target writing through its pointer parameter, without Go results
+func (tr *translator) exprStmt(x *ast.ExprStmt, c ctx, rest kont) (string, error) {
+	fn := tr.cur
+	call, ok := stripParens(x.X).(*ast.CallExpr)
+	if !ok {
+		return "", tr.errf(x, "unsupported expression statement")
+	}
+	if id, ok := call.Fun.(*ast.Ident); ok && id.Name == "copy" && fn.sc.lookup("copy") == nil {
+		if _, isFunc := fn.file.pkg.funcs["copy"]; !isFunc {
+			if len(call.Args) != 2 {
+				return "", tr.errf(x, "copy: bad arity")
+			}
+			vi, lo, err := tr.sliceTarget(call.Args[0])
+			if err != nil {
+				return "", err
+			}
+			src, err := tr.expr(call.Args[1])
+			if err != nil {
+				return "", err
+			}
+			el := vi.typ.(TArray).Elem
+			if st, ok := src.t.(TSlice); !ok || !sameType(st.Elem, el) {
+				if _, isStr := src.t.(TString); !(isStr && isByte(el)) {
+					return "", tr.errf(x, "copy from %s into [..]%s", src.t, el)
+				}
+			}
+			safe := append(append([]string{}, lo.safe...), src.safe...)
+			safe = append(safe, fmt.Sprintf("(go_slice_ok %s (go_len %s) (go_len %s))", lo.s, vi.coq, vi.coq))
+			r, err := rest()
+			if err != nil {
+				return "", err
+			}
+			return tr.guard(c, x, safe, fmt.Sprintf("let %s := (go_copy_at %s %s %s) in\n%s", vi.coq, vi.coq, lo.s, src.s, r))
+		}
+	}
+	if path, ok := tr.qualified(call.Fun); ok {
+		if bits, ok := map[string]int{"encoding/binary.BigEndian.PutUint64": 64, "encoding/binary.BigEndian.PutUint32": 32,
+			"encoding/binary.BigEndian.PutUint16": 16}[path]; ok {
+			if len(call.Args) != 2 {
+				return "", tr.errf(x, "PutUint%d: bad arity", bits)
+			}
+			vi, lo, err := tr.sliceTarget(call.Args[0])
+			if err != nil {
+				return "", err
+			}
+			if !isByte(vi.typ.(TArray).Elem) {
+				return "", tr.errf(x, "PutUint%d into an array of %s", bits, vi.typ.(TArray).Elem)
+			}
+			v, err := tr.expr(call.Args[1])
+			if err != nil {
+				return "", err
+			}
+			if v, err = tr.conv(call.Args[1], v, predeclared[fmt.Sprintf("uint%d", bits)]); err != nil {
+				return "", err
+			}
+			safe := append(append([]string{}, lo.safe...), v.safe...)
+			safe = append(safe, fmt.Sprintf("(go_slice_ok %s (go_len %s) (go_len %s))", lo.s, vi.coq, vi.coq))
+			safe = append(safe, fmt.Sprintf("(%d <=? (go_len %s) - %s)", bits/8, vi.coq, lo.s))
+			r, err := rest()
+			if err != nil {
+				return "", err
+			}
+			return tr.guard(c, x, safe, fmt.Sprintf("let %s := (be_put_uint %d %s %s %s) in\n%s", vi.coq, bits/8, vi.coq, lo.s, v.s, r))
+		}
+	}
+	// target with in/out array parameters
+	key, recv, err := tr.calleeKey(call)
+	if err != nil {
+		return "", err
+	}
+	tg, ok := tr.targets[key]
+	if !ok {
+		return "", tr.errf(x, "call statement of %s, which is not a target in targets.json", key)
+	}
+	if err := tr.translateTarget(tg); err != nil {
+		return "", err
+	}
+	if recv != nil || len(tg.refOut) == 0 || len(tg.results) != 0 || call.Ellipsis.IsValid() {
+		return "", tr.errf(x, "call statement: only a function without results that writes through pointer-to-array parameters is supported")
+	}
+	if len(call.Args) != len(tg.paramTypes) {
+		return "", tr.errf(x, "call of %s with %d arguments, want %d", key, len(call.Args), len(tg.paramTypes))
+	}
+	term := tg.spec.Gallina
+	var safe []string
+	outs := map[int]*varInfo{}
+	seen := map[string]bool{}
+	for i, a := range call.Args {
+		if tg.paramRef[i] {
+			vi, err := tr.refArg(a)
+			if err != nil {
+				return "", err
+			}
+			if !sameType(vi.typ, tg.paramTypes[i]) {
+				return "", tr.errf(a, "argument of type *%s for a parameter of type *%s", vi.typ, tg.paramTypes[i])
+			}
+			if seen[vi.name] {
+				return "", tr.errf(a, "the same array is passed twice by reference (aliasing)")
+			}
+			seen[vi.name] = true
+			outs[i] = vi
+			term += " " + vi.coq
+			continue
+		}
+		v, err := tr.expr(a)
+		if err != nil {
+			return "", err
+		}
+		if v, err = tr.conv(a, v, tg.paramTypes[i]); err != nil {
+			return "", err
+		}
+		term += " " + v.s
+		safe = append(safe, v.safe...)
+	}
+	var pats []string
+	for _, i := range tg.refOut {
+		pats = append(pats, outs[i].coq)
+	}
+	r, err := rest()
+	if err != nil {
+		return "", err
+	}
+	pat := pats[0]
+	if len(pats) > 1 {
+		pat = "(" + strings.Join(pats, ", ") + ")"
+	}
+	var code string
+	if tg.partial {
+		p, err := tr.panicTerm(c, x)
+		if err != nil {
+			return "", err
+		}
+		code = fmt.Sprintf("match (%s) with\n| None => %s\n| Some %s =>\n%s\nend", term, p, pat, indent(r))
+	} else if len(pats) > 1 {
+		code = fmt.Sprintf("let '%s := (%s) in\n%s", pat, term, r)
+	} else {
+		code = fmt.Sprintf("let %s := (%s) in\n%s", pat, term, r)
+	}
+	return tr.guard(c, x, safe, code)
+}
+
+// mutatesRef: does the body write through the pointer-to-array parameter name?  Syntactic and conservative:
+// an assignment to an element, or passing the array by reference (slice of it, the pointer itself) to anything
+// but the read-only library functions.
+func (tr *translator) mutatesRef(body ast.Node, name string) bool {
+	base := func(e ast.Expr) (string, bool) { // (identifier, passed by reference)
+		ref := false
+		for {
+			switch x := e.(type) {
+			case *ast.ParenExpr:
+				e = x.X
+			case *ast.SliceExpr:
+				ref = true
+				e = x.X
+			case *ast.StarExpr:
+				e = x.X
+			case *ast.UnaryExpr:
+				if x.Op != token.AND {
+					return "", false
+				}
+				ref = true
+				e = x.X
+			case *ast.Ident:
+				return x.Name, ref
+			default:
+				return "", false
+			}
+		}
+	}
+	found := false
+	ast.Inspect(body, func(n ast.Node) bool {
+		switch x := n.(type) {
+		case *ast.AssignStmt:
+			for _, l := range x.Lhs {
+				e := l
+				for {
+					if ix, ok := stripParens(e).(*ast.IndexExpr); ok {
+						e = ix.X
+						continue
+					}
+					break
+				}
+				if id, _ := base(e); id == name {
+					found = true
+				}
+			}
+		case *ast.IncDecStmt:
+			e := x.X
+			if ix, ok := stripParens(e).(*ast.IndexExpr); ok {
+				e = ix.X
+			}
+			if id, _ := base(e); id == name {
+				found = true
+			}
+		case *ast.CallExpr:
+			readOnly := false
+			if id, ok := x.Fun.(*ast.Ident); ok && (id.Name == "len" || id.Name == "cap") {
+				readOnly = true
+			}
+			if sel, ok := x.Fun.(*ast.SelectorExpr); ok {
+				if inner, ok := sel.X.(*ast.SelectorExpr); ok {
+					if p, ok := inner.X.(*ast.Ident); ok && tr.cur.file.imports[p.Name] == "encoding/binary" &&
+						inner.Sel.Name == "BigEndian" && (sel.Sel.Name == "Uint16" || sel.Sel.Name == "Uint32" || sel.Sel.Name == "Uint64") {
+						readOnly = true
+					}
+				}
+				if p, ok := sel.X.(*ast.Ident); ok && tr.cur.file.imports[p.Name] == "bytes" && sel.Sel.Name == "HasPrefix" {
+					readOnly = true
+				}
+			}
+			isCopy := false
+			if id, ok := x.Fun.(*ast.Ident); ok && id.Name == "copy" {
+				isCopy = true
+			}
+			for i, a := range x.Args {
+				id, ref := base(a)
+				if id != name {
+					continue
+				}
+				if _, bare := stripParens(a).(*ast.Ident); bare {
+					ref = true // the pointer itself is passed on
+				}
+				if ref && !readOnly && !(isCopy && i == 1) {
+					found = true
+				}
+			}
+		}
+		return true
+	})
+	return found
 }
